@@ -463,6 +463,10 @@ func (p *G1Jac) JointScalarMultiplicationBase(a *G1Affine, s1, s2 *big.Int) *G1J
 		maxBit = k2.BitLen()
 	}
 	hiWordIndex := (maxBit - 1) / 64
+	// s1, s2 are reduced modulo r above: never look past the last word of the reduced scalars
+	if hiWordIndex >= len(s[0]) {
+		hiWordIndex = len(s[0]) - 1
+	}
 
 	for i := hiWordIndex; i >= 0; i-- {
 		mask := uint64(3) << 62
@@ -532,6 +536,10 @@ func (p *G1Jac) JointScalarMultiplication(p1, p2 *G1Jac, s1, s2 *big.Int) *G1Jac
 		maxBit = k2.BitLen()
 	}
 	hiWordIndex := (maxBit - 1) / 64
+	// s1, s2 are reduced modulo r above: never look past the last word of the reduced scalars
+	if hiWordIndex >= len(s[0]) {
+		hiWordIndex = len(s[0]) - 1
+	}
 
 	for i := hiWordIndex; i >= 0; i-- {
 		mask := uint64(3) << 62
